@@ -355,6 +355,20 @@ class SymReal:
     def __bool__(self):
         raise TypeError("truth value of a SymReal requested")
 
+    def __int__(self):
+        """int(x) truncates toward zero: a fresh symbolic integer tied to x on this path"""
+        from .symint import SInt, SIntInt
+        c = ctx()
+        n = getattr(c, '_trunc_n', 0)
+        c._trunc_n = n + 1
+        i = SInt.var(f'__tr{n}')
+        x = self.t
+        one = tm.ONE
+        c.pc.append(tm.bor([tm.band([tm.le(tm.ZERO, x), tm.le(i.t, x), tm.lt(x, tm.add(i.t, one))]),
+                            tm.band([tm.lt(x, tm.ZERO), tm.lt(tm.sub(i.t, one), x), tm.le(x, i.t)])]))
+        c.cache.clear()
+        return SIntInt(i)
+
     def __float__(self):
         if self.t.op == 'c':
             return float(self.t.val)
